@@ -94,6 +94,20 @@ theorem hs_inv_fromVec (t : TD α) (h : t.Inv) (c r : Nat) (v : List α) :
     rw [e]; exact hi
   · rw [(C20_from_vec c r v).2 hs]; exact h
 
+theorem hs_inv_newArr (cap : Nat) (t : TD α) (h : t.Inv) (c r : Nat) (d : α) :
+    (match TD.new cap c r d with | .ok t' => t' | .error _ => t).Inv := by
+  by_cases hs : shapeOk c r ∧ c * r ≤ cap
+  · obtain ⟨t', e, hi, _⟩ := (C20_new cap c r d).1 hs
+    rw [e]; exact hi
+  · rw [(C20_new cap c r d).2 hs]; exact h
+
+theorem hs_inv_initArr (cap : Nat) (t : TD α) (h : t.Inv) (c r : Nat) (x : α) :
+    (match TD.init cap c r x with | .ok t' => t' | .error _ => t).Inv := by
+  by_cases hs : shapeOk c r ∧ c * r ≤ cap
+  · obtain ⟨t', e, hi, _⟩ := (C20_init cap c r x).1 hs
+    rw [e]; exact hi
+  · rw [(C20_init cap c r x).2 hs]; exact h
+
 theorem hs_inv_insertRow (m : Mode) (cap : Nat) (hcap : cap < WORD) (t : TD α) (h : t.Inv) (i : Nat) (it : IterScript α)
     (spare : List α) (hop : it.claimed ≤ spare.length) : (t.insertRow m cap i it spare).t.Inv :=
   (C11_insert_row m cap t h i it spare (Or.inl hop) hcap).2.2.1
@@ -157,6 +171,8 @@ theorem hs_step_inv (e : HEnv) (he : e.ok) (t : TD α) (h : t.Inv) (op : HOp α)
     (hstep e t op).Inv := by
   cases op with
   | fromVec c r v => exact hs_inv_fromVec t h c r v
+  | newArr c r d => exact hs_inv_newArr e.cap t h c r d
+  | initArr c r x => exact hs_inv_initArr e.cap t h c r x
   | insertRow i it spare => exact hs_inv_insertRow e.m e.cap he t h i it spare hop
   | insertCol i it spare => exact hs_inv_insertCol e.m e.cap he t h i it spare hop
   | removeRow i w => exact hs_inv_removeRow e t h i w
@@ -167,7 +183,7 @@ theorem hs_step_inv (e : HEnv) (he : e.ok) (t : TD α) (h : t.Inv) (op : HOp α)
   | removeColLeak i w => exact hs_inv_removeColLeak e t h i w
   | clear => exact hs_inv_empty
   | swapDimensions => exact hs_inv_swapDimensions t h
-  | capacityCall => exact h
+  | capacityCall k => exact h
   | takeInto k => exact hs_inv_empty
   | inplace op => exact hs_inv_inplace e.m e.lim t h op hop
   | viaView s e' ops => exact hs_inv_viaView e t h s e' ops hop
@@ -194,6 +210,20 @@ theorem hs_step_res (e : HEnv) (he : e.ok) (t : TD α) (h : t.Inv) (op : HOp α)
       · obtain ⟨t', e', _⟩ := (C20_from_vec c r v).1 hs
         rw [e']; exact Or.inl rfl
       · rw [(C20_from_vec c r v).2 hs]; exact Or.inr rfl
+    exact okp _ this
+  | newArr c r d =>
+    have : (TD.new e.cap c r d).map (fun _ => ()) = .ok () ∨ (TD.new e.cap c r d).map (fun _ => ()) = .error .panic := by
+      by_cases hs : shapeOk c r ∧ c * r ≤ e.cap
+      · obtain ⟨t', e', _⟩ := (C20_new e.cap c r d).1 hs
+        rw [e']; exact Or.inl rfl
+      · rw [(C20_new e.cap c r d).2 hs]; exact Or.inr rfl
+    exact okp _ this
+  | initArr c r x =>
+    have : (TD.init e.cap c r x).map (fun _ => ()) = .ok () ∨ (TD.init e.cap c r x).map (fun _ => ()) = .error .panic := by
+      by_cases hs : shapeOk c r ∧ c * r ≤ e.cap
+      · obtain ⟨t', e', _⟩ := (C20_init e.cap c r x).1 hs
+        rw [e']; exact Or.inl rfl
+      · rw [(C20_init e.cap c r x).2 hs]; exact Or.inr rfl
     exact okp _ this
   | insertRow i it spare =>
     have := C11_insert_row e.m e.cap t h i it spare (Or.inl hop) he
@@ -231,7 +261,17 @@ theorem hs_step_res (e : HEnv) (he : e.ok) (t : TD α) (h : t.Inv) (op : HOp α)
       exact Or.inl hr
   | clear => exact okp _ (Or.inl rfl)
   | swapDimensions => exact okp _ (Or.inl rfl)
-  | capacityCall => exact okp _ (Or.inl rfl)
+  | capacityCall k =>
+    cases k with
+    | none => exact okp _ (Or.inl rfl)
+    | some k =>
+      have hres_eq : hres e t (.capacityCall (some k))
+          = (if reserveOk e.cap t.data.length k = true then pure () else throw .panic : Res Unit) := rfl
+      rw [hres_eq]
+      apply okp
+      by_cases hr : reserveOk e.cap t.data.length k = true
+      · rw [if_pos hr]; exact Or.inl rfl
+      · rw [if_neg hr]; exact Or.inr rfl
   | takeInto k => exact okp _ (Or.inl rfl)
   | inplace op =>
     have gen : ∀ r : Res (List α), r ≠ .error .ub → r ≠ .error .fuel →
@@ -249,6 +289,23 @@ theorem hs_step_res (e : HEnv) (he : e.ok) (t : TD α) (h : t.Inv) (op : HOp α)
     rw [← hs_run_spec e.m e.lim t h op hop] at h1 h2
     exact gen _ h1 h2
   | viaView s e' ops => exact hs_res_viaView e t h s e' ops hop
+
+/-- **the outcome of an in-place call is the plain model's acceptance** -/
+theorem hs_inplace_outcome (e : HEnv) (t : TD α) (h : t.Inv) (op : MOp α) (hop : (HOp.inplace op).wf)
+    (hfit : (HOp.inplace op).fits e t) :
+    (op.gok t.grid = true → hres e t (.inplace op) = .ok ()) ∧
+    (op.gok t.grid = false → hres e t (.inplace op) = .error .panic ∧ hstep e t (.inplace op) = t) := by
+  have hrs := hs_run_spec e.m e.lim t h op hop
+  constructor
+  · intro hk
+    obtain ⟨d, hsp⟩ := hs_gok_true_spec e.lim t h op (fun side row he => by subst he; exact hfit)
+      (fun side col he => by subst he; exact hfit) hk
+    simp only [hres, hrs, hsp]
+    rfl
+  · intro hk
+    have hsp := hs_gok_false_spec e.lim t h op hop.1 hk
+    simp only [hres, hstep, hrs, hsp]
+    exact ⟨rfl, rfl⟩
 
 /-! ### each operation against the rows-of-cells model -/
 
@@ -342,6 +399,32 @@ theorem hs_ref_fromVec (e : HEnv) (t : TD α) (c r : Nat) (v : List α) :
     show _ = some (toRows t'.numCols t'.data)
     rw [hc, hd]
   · rw [if_neg (fun hc => hs ⟨hsp.1 hc.1, hc.2⟩), (C20_from_vec c r v).2 hs]
+
+theorem hs_specShapeOk (c r : Nat) : specShapeOk c r = true ↔ shapeOk c r := by
+  unfold specShapeOk shapeOk
+  exact decide_eq_true_iff
+
+theorem hs_ref_newArr (e : HEnv) (t : TD α) (c r : Nat) (d : α) (hfit : c * r ≤ e.cap) :
+    gstep t.grid (.newArr c r d) = some (hstep e t (.newArr c r d)).grid := by
+  show (if specShapeOk c r = true then some (toRows c (List.replicate (c * r) d)) else some t.grid)
+    = some (match TD.new e.cap c r d with | .ok t' => t' | .error _ => t).grid
+  by_cases hs : shapeOk c r
+  · obtain ⟨t', e', _, hc, _, hd⟩ := (C20_new e.cap c r d).1 ⟨hs, hfit⟩
+    rw [if_pos ((hs_specShapeOk c r).2 hs), e']
+    show _ = some (toRows t'.numCols t'.data)
+    rw [hc, hd]
+  · rw [if_neg (fun hc => hs ((hs_specShapeOk c r).1 hc)), (C20_new e.cap c r d).2 (fun hc => hs hc.1)]
+
+theorem hs_ref_initArr (e : HEnv) (t : TD α) (c r : Nat) (x : α) (hfit : c * r ≤ e.cap) :
+    gstep t.grid (.initArr c r x) = some (hstep e t (.initArr c r x)).grid := by
+  show (if specShapeOk c r = true then some (toRows c (List.replicate (c * r) x)) else some t.grid)
+    = some (match TD.init e.cap c r x with | .ok t' => t' | .error _ => t).grid
+  by_cases hs : shapeOk c r
+  · obtain ⟨t', e', _, hc, _, hd⟩ := (C20_init e.cap c r x).1 ⟨hs, hfit⟩
+    rw [if_pos ((hs_specShapeOk c r).2 hs), e']
+    show _ = some (toRows t'.numCols t'.data)
+    rw [hc, hd]
+  · rw [if_neg (fun hc => hs ((hs_specShapeOk c r).1 hc)), (C20_init e.cap c r x).2 (fun hc => hs hc.1)]
 
 theorem hs_ref_swapDimensions (e : HEnv) (t : TD α) (h : t.Inv) :
     gstep t.grid .swapDimensions = some (hstep e t .swapDimensions).grid := by
@@ -513,6 +596,8 @@ theorem hs_step_refines (e : HEnv) (he : e.ok) (t : TD α) (h : t.Inv) (op : HOp
     exact Option.some.inj hg
   cases op with
   | fromVec c r v => exact fin _ (hs_ref_fromVec e t c r v)
+  | newArr c r d => exact fin _ (hs_ref_newArr e t c r d hfit)
+  | initArr c r x => exact fin _ (hs_ref_initArr e t c r x hfit)
   | insertRow i it spare => exact hs_ref_insertRow e.m e.cap he t h i it spare hop hfit g' hg
   | insertCol i it spare => exact hs_ref_insertCol e.m e.cap he t h i it spare hop hfit g' hg
   | removeRow i w => exact fin _ (hs_ref_removeRow e t h i w)
@@ -523,7 +608,7 @@ theorem hs_step_refines (e : HEnv) (he : e.ok) (t : TD α) (h : t.Inv) (op : HOp
   | removeColLeak i w => exact fin _ (hs_ref_removeColLeak e t h i w)
   | clear => exact fin _ (congrArg some hs_grid_empty.symm)
   | swapDimensions => exact fin _ (hs_ref_swapDimensions e t h)
-  | capacityCall => exact fin _ rfl
+  | capacityCall k => exact fin _ rfl
   | takeInto k => exact fin _ (congrArg some hs_grid_empty.symm)
   | inplace op =>
     show (t.withData ((Recv.root t).run e.m e.lim t.data op)).grid = g'
